@@ -67,6 +67,13 @@ func (x *c39G) ack() {
 	i := r.Range(0, 3)
 	if len(x.done) > 0 {
 		i = x.done[r.Intn(len(x.done))]
+		if len(x.pending) > 0 && r.Chance(50) { // prefer the newest delivered row while older ones are still undelivered
+			for _, d := range x.done {
+				if d > i {
+					i = d
+				}
+			}
+		}
 		if len(x.pending) > 0 && i > x.pending[0] {
 			x.g.Count("ack:later-row-while-earlier-undelivered")
 		}
